@@ -19,7 +19,7 @@ PRODUCERS = [q for q, (_, role) in O.QUERIES.items() if role == "P"]
 CONSUMERS = [q for q, (_, role) in O.QUERIES.items() if role in ("C", "X")]
 EXPORTS = [q for q, (_, role) in O.QUERIES.items() if role == "X"]
 ISOLATED_SHARE = 0.25
-FORK_OPS = ["deepcopy", "deepcopy", "pickle", "pickle", "reload", "reload", "derive_P1", "derive_cif", "derive_res", "derive_supercell", "stranger", "stranger", "stranger_kw", "stranger_kw", "other", "other", "sibling", "sibling", "derive_cifdata", "drop"]
+FORK_OPS = ["deepcopy", "deepcopy", "pickle", "pickle", "reload", "reload", "derive_P1", "derive_cif", "derive_res", "derive_supercell", "derive_from_molecule", "stranger", "stranger", "stranger_kw", "stranger_kw", "other", "other", "sibling", "sibling", "derive_cifdata", "drop"]
 RADII = [1.5, 3.0, 3.8, 6.0, 9.0]
 BOUNDS = [
     [[-1, -1, -1], [1, 1, 1]],
@@ -146,7 +146,7 @@ def _fault_step(rng, cfg, hi, sim):
             "when": rng.choice(["before", "before", "after", "after", "lost", "short", "read"]),
             "errno": rng.choice(["ENOSPC", "EACCES", "EIO"]),
         }
-    op = rng.choice(cfg["queries"])
+    op = rng.choice([q for q in cfg["queries"] if O.ALL_QUERIES[q][0] is not None] or ["uc_atoms"])
     return {"h": hi, "op": op, "inject": _aimed_injection(rng, sim, hi, op)}
 
 
@@ -157,7 +157,7 @@ def choose_step(rng, cfg, fb, sim):
         return {"h": fb["h"], "op": "inspect"}
     if fb is not None:
         if fb["new_memo"] and cfg["p_mut"] > 0 and rng.random() < 0.5:
-            return {"h": fb["h"], "op": rng.choice(["toH", "toR", "toH", "toR", "normH", "flip2", "flip3"])}
+            return {"h": fb["h"], "op": rng.choice(["toH", "toR", "toH", "toR", "normH", "normH_tol", "flip2", "flip3"])}
         if fb["changed"]:
             r = rng.random()
             if r < 0.3 and cfg["p_fork"] > 0:
@@ -166,7 +166,7 @@ def choose_step(rng, cfg, fb, sim):
                 return {"h": fb["h"], "op": rng.choice(CONSUMERS)}
     r = rng.random()
     if r < cfg["p_mut"]:
-        return {"h": hi, "op": rng.choice(["toH", "toR", "toH", "toR", "normH", "flip2", "flip3"])}
+        return {"h": hi, "op": rng.choice(["toH", "toR", "toH", "toR", "normH", "normH_tol", "flip2", "flip3"])}
     r -= cfg["p_mut"]
     if r < cfg["p_fork"]:
         return {"h": hi, "op": rng.choice(FORK_OPS)}
@@ -262,7 +262,7 @@ def random_run(verif_seed, index, stratum="random"):
 
 # ------------------------------------------------------------- templates
 TEMPLATE_Q1 = [None, "uc_atoms", "conn", "uc_mols", "sym_mols", "labelled_uc_mols"]
-TEMPLATE_MUT = ["switch", "flip3", "normH"]
+TEMPLATE_MUT = ["switch", "flip3", "normH", "normH_tol"]
 TEMPLATE_SRC = [
     ("co", None),
     ("co", "cif"),
@@ -284,7 +284,12 @@ TEMPLATE_COMBOS = [
     for p in range(len(TEMPLATE_PAIRS))
     for m in range(len(TEMPLATE_MUT))
     for s in range(len(TEMPLATE_SRC))
-    if p < N_MEMO_PAIRS or TEMPLATE_SRC[s][1] == "cif" or TEMPLATE_SRC[s][0] == "file"
+    if (p < N_MEMO_PAIRS or TEMPLATE_SRC[s][1] == "cif" or TEMPLATE_SRC[s][0] == "file")
+    # a second export: the same kind again, or one of three core kinds
+    and (p < N_MEMO_PAIRS or TEMPLATE_PAIRS[p][0] == TEMPLATE_PAIRS[p][1] or TEMPLATE_PAIRS[p][1] in ("cif", "sl_res", "sl_poscar"))
+    # the normalisation with its own tolerance: cold or atom-table-only memo state, bond-graph consumers afterwards
+    and (TEMPLATE_MUT[m] != "normH_tol" or (p < N_MEMO_PAIRS and TEMPLATE_PAIRS[p][0] in (None, "uc_atoms")
+                                            and TEMPLATE_PAIRS[p][1] in ("conn", "uc_mols", "sym_mols", "menv", "as_P1")))
 ]
 N_TEMPLATES = len(TEMPLATE_COMBOS)
 
@@ -337,7 +342,8 @@ def template_run(verif_seed, index, stratum="template"):
             choice = sim.world[0].space_group.choice
             other = "toR" if choice == "H" else "toH"
             back = "toH" if choice == "H" else "toR"
-            tail = {"switch": [other], "switch2": [other, back], "flip3": ["flip3"], "normH": ["normH"]}[mut]
+            tail = {"switch": [other], "switch2": [other, back], "flip3": ["flip3"], "normH": ["normH"],
+                    "normH_tol": ["normH_tol"]}[mut]
             rest = [{"h": target, "op": m} for m in tail]
             if defer:
                 rest.append({"h": target, "op": "inspect"})
@@ -618,6 +624,32 @@ def inject_template_of(index):
     return INJECT_SOURCES[i % len(INJECT_SOURCES)], FAST_QUERIES[q], INJECT_TARGETS[t], INJECT_NTH[k]
 
 
+def inject_applicable_for_source(si):
+    """Template indices of source `si` whose seam is called at all by their
+    query on the fresh source crystal (the others would end at once). The
+    memo-populating first step only ever removes calls, so this is a superset
+    filter on the safe side: a template is kept whenever the cold query calls
+    the seam."""
+    from .engine import Sim
+
+    sim = Sim(INJECT_SOURCES[si], gen_args(random.Random(0)))
+    try:
+        keep = []
+        for q, op in enumerate(FAST_QUERIES):
+            fn = O.ALL_QUERIES[op][0]
+            if fn is None:
+                continue
+            trial = copy.deepcopy(sim.world[0])
+            counts = INJECTOR.probe(lambda: fn(trial, sim.A, {"dir": FS.dir("probe"), "box": {}}))
+            for t, target in enumerate(INJECT_TARGETS):
+                if counts[target] > 0:
+                    base = ((si * len(FAST_QUERIES) + q) * len(INJECT_TARGETS) + t) * len(INJECT_NTH)
+                    keep.extend(range(base, base + len(INJECT_NTH)))
+        return keep
+    finally:
+        sim.close()
+
+
 def inject_template_run(verif_seed, index, stratum="inject", nth_override=None):
     """A query fails at a chosen seam call (first / last call of that seam, or
     an explicit position); afterwards the same query, the label-strict
@@ -636,6 +668,8 @@ def inject_template_run(verif_seed, index, stratum="inject", nth_override=None):
         if state["phase"] == 1:
             state["phase"] = 2
             fn = O.ALL_QUERIES[op][0]
+            if fn is None:
+                return None
             trial = copy.deepcopy(sim.world[0])
             n = INJECTOR.probe(lambda: fn(trial, sim.A, {"dir": FS.dir("probe"), "box": {}}))[target]
             if n == 0:
